@@ -47,18 +47,18 @@ Section Results.
   Proof. intros w ops. destruct ops; reflexivity. Qed.
 
   (* ---- K3 ---- *)
-  Theorem coarse_inv_init : forall mode t0, 0 < t0 -> coarse_inv teqb hc (init_world mode t0).
-  Proof. intros mode t0 _. apply CoarseBuildProofs.coarse_inv_init_main. Qed.
+  Theorem coarse_inv_init : forall mode t0, coarse_inv teqb hc (init_world mode t0).
+  Proof. intros mode t0. apply CoarseBuildProofs.coarse_inv_init_main. Qed.
 
   Theorem coarse_inv_apply_op : forall (w : world T) (o : op T),
     coarse_inv teqb hc w -> safe_op T o -> op_confined T w o -> coarse_inv teqb hc (fst (apply_op w o)).
   Proof. exact (CoarseBuildProofs.coarse_inv_apply_op_main T teqb hc hl hr teqb_spec). Qed.
 
   Theorem coarse_inv_every_history : forall mode t0 (ops : list (op T)),
-    0 < t0 -> confined_history T teqb hc hl hr (init_world mode t0) ops ->
+    confined_history T teqb hc hl hr (init_world mode t0) ops ->
     coarse_inv teqb hc (run_ops ops (init_world mode t0)).
   Proof.
-    intros mode t0 ops _ Hh. apply (CoarseBuildProofs.coarse_inv_history T teqb hc hl hr teqb_spec); [|exact Hh].
+    intros mode t0 ops Hh. apply (CoarseBuildProofs.coarse_inv_history T teqb hc hl hr teqb_spec); [|exact Hh].
     apply CoarseBuildProofs.coarse_inv_init_main.
   Qed.
 
@@ -83,7 +83,7 @@ Section Results.
 
   (* ---- K4 ---- *)
   Theorem c18_every_history_any_clock : forall mode t0 (ops : list (op T)) goal,
-    0 < t0 -> confined_history T teqb hc hl hr (init_world mode t0) ops ->
+    confined_history T teqb hc hl hr (init_world mode t0) ops ->
     build_confined T (run_ops ops (init_world mode t0)) goal ->
     let w := run_ops ops (init_world mode t0) in
     let o1 := build teqb hc hl hr w RULES_PATH goal in
@@ -93,12 +93,12 @@ Section Results.
     rd_hist (w_rd (o_world o1)) = rd_hist (w_rd (o_world o2)) /\
     o_commands o1 = o_commands o2 /\ o_status o1 = o_status o2.
   Proof.
-    intros mode t0 ops goal Ht0 Hh Hc. apply (c18_coarse T teqb hc hl hr teqb_spec); [|exact Hc].
+    intros mode t0 ops goal Hh Hc. apply (c18_coarse T teqb hc hl hr teqb_spec); [|exact Hc].
     apply coarse_inv_every_history; assumption.
   Qed.
 
   Theorem c18_coarse_every_history : forall t0 (ops : list (op T)) goal,
-    0 < t0 -> confined_history T teqb hc hl hr (init_world Coarse t0) ops ->
+    confined_history T teqb hc hl hr (init_world Coarse t0) ops ->
     build_confined T (run_ops ops (init_world Coarse t0)) goal ->
     let w := run_ops ops (init_world Coarse t0) in
     let o1 := build teqb hc hl hr w RULES_PATH goal in
@@ -110,7 +110,7 @@ Section Results.
   Proof. exact (c18_every_history_any_clock Coarse). Qed.
 
   Theorem c18_coarse_clean_every_history : forall t0 (ops : list (op T)) goal,
-    0 < t0 -> confined_history T teqb hc hl hr (init_world Coarse t0) ops ->
+    confined_history T teqb hc hl hr (init_world Coarse t0) ops ->
     let w := run_ops ops (init_world Coarse t0) in
     let o1 := clean teqb hc w RULES_PATH goal in
     let o2 := clean teqb hc (erase_table T w) RULES_PATH goal in
@@ -119,7 +119,7 @@ Section Results.
     rd_hist (w_rd (o_world o1)) = rd_hist (w_rd (o_world o2)) /\
     o_commands o1 = o_commands o2 /\ o_status o1 = o_status o2.
   Proof.
-    intros t0 ops goal Ht0 Hh. apply (c18_coarse_clean T teqb hc teqb_spec).
+    intros t0 ops goal Hh. apply (c18_coarse_clean T teqb hc teqb_spec).
     apply coarse_inv_every_history; assumption.
   Qed.
 
@@ -152,10 +152,10 @@ Section Results.
 
   (* the invariant holds after every prefix of the history *)
   Theorem coarse_inv_throughout : forall mode t0 (ops : list (op T)) k,
-    0 < t0 -> confined_history T teqb hc hl hr (init_world mode t0) ops ->
+    confined_history T teqb hc hl hr (init_world mode t0) ops ->
     coarse_inv teqb hc (run_ops (firstn k ops) (init_world mode t0)).
   Proof.
-    intros mode t0 ops k Ht0 Hh. apply coarse_inv_every_history; [exact Ht0|].
+    intros mode t0 ops k Hh. apply coarse_inv_every_history.
     apply confined_history_firstn. exact Hh.
   Qed.
 End Results.
@@ -193,7 +193,7 @@ Theorem c18_coarse_clean_sym : forall (w : world sym) rp goal,
   o_commands o1 = o_commands o2 /\ o_status o1 = o_status o2.
 Proof. exact (c18_coarse_clean sym sym_eqb SContent sym_eqb_spec). Qed.
 
-Theorem coarse_inv_init_sym : forall mode t0, 0 < t0 -> coarse_inv sym_eqb SContent (init_world mode t0).
+Theorem coarse_inv_init_sym : forall mode t0, coarse_inv sym_eqb SContent (init_world mode t0).
 Proof. exact (coarse_inv_init sym sym_eqb SContent). Qed.
 
 Theorem coarse_inv_apply_op_sym : forall (w : world sym) (o : op sym),
@@ -202,12 +202,12 @@ Theorem coarse_inv_apply_op_sym : forall (w : world sym) (o : op sym),
 Proof. exact (coarse_inv_apply_op sym sym_eqb SContent SList SRule sym_eqb_spec). Qed.
 
 Theorem coarse_inv_every_history_sym : forall mode t0 (ops : list (op sym)),
-  0 < t0 -> confined_history_sym (init_world mode t0) ops ->
+  confined_history_sym (init_world mode t0) ops ->
   coarse_inv sym_eqb SContent (run_sym ops (init_world mode t0)).
 Proof. exact (coarse_inv_every_history sym sym_eqb SContent SList SRule sym_eqb_spec). Qed.
 
 Theorem c18_coarse_every_history_sym : forall t0 (ops : list (op sym)) goal,
-  0 < t0 -> confined_history_sym (init_world Coarse t0) ops ->
+  confined_history_sym (init_world Coarse t0) ops ->
   build_confined sym (run_sym ops (init_world Coarse t0)) goal ->
   let w := run_sym ops (init_world Coarse t0) in
   let o1 := build_sym w RULES_PATH goal in
@@ -392,7 +392,7 @@ Qed.
 Example sw_inv_throughout : forall k,
   coarse_inv sym_eqb SContent (run_sym (firstn k (sw_ops ++ [OBuild None])) (init_world Coarse 1)).
 Proof.
-  intro k. apply (coarse_inv_throughout sym sym_eqb SContent SList SRule sym_eqb_spec); [reflexivity | exact sw_confined].
+  intro k. apply (coarse_inv_throughout sym sym_eqb SContent SList SRule sym_eqb_spec); exact sw_confined.
 Qed.
 
 Example sw_inv : coarse_inv sym_eqb SContent sw_w.
@@ -495,7 +495,7 @@ Example sw_c18_history :
   rd_cache (w_rd (o_world o1)) = rd_cache (w_rd (o_world o2)) /\
   rd_hist (w_rd (o_world o1)) = rd_hist (w_rd (o_world o2)) /\
   o_commands o1 = o_commands o2 /\ o_status o1 = o_status o2.
-Proof. apply c18_coarse_every_history_sym; [reflexivity | exact sw_confined_w | exact sw_build_confined]. Qed.
+Proof. apply c18_coarse_every_history_sym; [exact sw_confined_w | exact sw_build_confined]. Qed.
 
 Example sw_table_not_trivial :
   erase_table sym sw_w <> sw_w /\
